@@ -242,6 +242,55 @@ def eval_service(case):
     return {'v': v, 'nt': tuple(case), 'out': f'{exp[0]}'}
 
 
+def _in_child(fn):
+    """fn() in a forked child: class-level state of the library starts as in this process and dies with the child"""
+    import os
+    import pickle
+    r, w = os.pipe()
+    pid = os.fork()
+    if pid == 0:
+        try:
+            os.close(r)
+            try:
+                out = fn()
+            except BaseException as e:      # noqa
+                out = {'v': [('harness/child-raised', f'{type(e).__name__}: {e}')], 'nt': None, 'out': 'raise'}
+            with os.fdopen(w, 'wb') as f:
+                pickle.dump(out, f)
+        finally:
+            os._exit(0)
+    os.close(w)
+    with os.fdopen(r, 'rb') as f:
+        data = f.read()
+    os.waitpid(pid, 0)
+    return pickle.loads(data) if data else {'v': [('harness/child-died', '')], 'nt': None, 'out': 'raise'}
+
+
+def eval_after_setters(case):
+    """history: ANOTHER slice of this process had every constrained service property written through the setters before
+    (and was validated, which records a site); then the case is judged as usual. Each case in a forked process."""
+    def body():
+        world.reset_all()
+        d = ExperimentTopology()
+        ports = build_ports(d, 2, 'one-site', 'dedicated')
+        for i, prop in enumerate(p for p in PROPS if p is not None):
+            svc = d.add_network_service(name=f'decoy{i}', nstype=ServiceType.L2Bridge, interfaces=[])
+            for k, val in prop_kwargs(prop).items():
+                try:
+                    svc.set_property(k, val)
+                except Exception:
+                    pass
+        try:
+            d.add_network_service(name='decoy-v', nstype=ServiceType.L2Bridge, interfaces=[p for p, _, _ in ports])
+            d.validate()
+        except Exception:
+            pass
+        r = eval_service(case)
+        r['v'] = [('after-setters/' + fp, msg + ' [after another slice used every service setter]') for fp, msg in r['v']]
+        return r
+    return _in_child(body)
+
+
 def eval_node(case):
     ntype, toggle = case
     v = []
@@ -515,7 +564,7 @@ def eval_same_named_ports(case):
     return {'v': v, 'nt': tuple(case), 'out': f'same-named:{exp[0]}'}
 
 
-REPLAY = {'services': eval_service, 'same-named-ports': eval_same_named_ports, 'nodes': eval_node, 'tables': eval_meta, 'mirror': eval_mirror, 'moved': eval_moved, 'grown': eval_grown, 'peered': eval_peered}
+REPLAY = {'after-setters': eval_after_setters, 'services': eval_service, 'same-named-ports': eval_same_named_ports, 'nodes': eval_node, 'tables': eval_meta, 'mirror': eval_mirror, 'moved': eval_moved, 'grown': eval_grown, 'peered': eval_peered}
 
 
 def service_cases(tier):
@@ -560,6 +609,10 @@ def run(report):
                            'properties one at a time, thorough jointly; non-trivial = decided cases')
     for o in ('accept', 'reject', 'refused-at-once'):
         report.require(g['outcomes'].get(o, 0) > 0, f'service outcome {o}')
+    explore_cases(report, 'after-setters', eval_after_setters,
+                  [(st, n, 'one-site', 'dedicated', None, prop, 'ctor') for st in PINNED for n in (1, 2) for prop in PROPS], chunk=4,
+                  rule='15 service types x 1..2 interfaces x every constrained property, each judged in a forked process in which '
+                       'another slice had every constrained service property written through the setters (and was validated) before')
     gm = explore_cases(report, 'moved', eval_moved, [(st, n, site) for st in PINNED for n in (1, 2) for site in ('S1', 'S2')], chunk=4,
                        rule='every service type x 1..2 dedicated ports: declared site S1, connected at S1, validated, every interface '
                             'disconnected, the same number connected at S1 / S2, validated again against the tables')
